@@ -43,7 +43,12 @@ LEVEL = "proof"
 ENGINES = ["lean-model", "purediff", "kopfsim"]
 TIE = ("D: real patching.patch_obj / application.apply against the stateful fake API, bounded-exhaustive grid "
        "(thorough) + random contents; S: every patch_obj call of whole-operator simulations replayed through the model")
+ASSURANCE = "partial"   # DESIGN §8 sense; `LEVEL` is the evidence schema's technique category and has no such value
 LEVEL_TEXT = (
+    "PARTIAL in the sense of DESIGN §8: `only ever lands on the object it was computed for` is proved under a guard only "
+    "(same_object_partial; the full clause is false, finding F2), `not duplicated` holds for the finalizer list under the documented "
+    "repeat-safety of handler fns only (not_duplicated_partial + witness), `applied exactly once` in closed loops and the eventual "
+    "own-finalizer state rest on the oracle/tie; all other clauses have unguarded theorems. "
     "Lean theorems for ALL patch contents (well-formed field dicts x fn lists), with/without a status subresource, any list "
     "of foreign writes (edit / finalizer edit / delete / delete-and-recreate) before any of the four requests and any "
     "injected status (404, 422, any other API error): merge_delivered, routed_by_subresource, merge_complete, "
@@ -56,10 +61,13 @@ LEVEL_TEXT = (
     "state is applied once — the code re-decides instead of the property's literal `carried and re-evaluated`); "
     "not_duplicated_partial + reapplied_after_status_conflict_witness (after a 422 on the FOURTH request the handler-supplied "
     "body fns are applied a second time: membership is preserved for state-checking fns, which docs/patches.rst demands; the "
-    "order may change — documented contract, not a finding); daemon_invocation_owns_its_patch + daemon_delivery_not_repeated (every "
-    "invocation of a daemon/timer sends exactly what it accumulated itself, and after an accepted delivery nothing of it is sent "
-    "again; tied on whole-operator runs with several timers/daemons per object by replaying each delivery from the HANDLER's own "
-    "log of what it accumulated); silent_404, raised_only_on_api_error; same_object_partial and the "
+    "order may change — documented contract, not a finding); patch_is_own_accumulation + delivery_sends_own_patch + "
+    "daemon_delivery_not_repeated (an LTS of several daemons/timers of one object writing to and delivering their patches in any "
+    "interleaving: the patch a daemon holds is exactly what its own invocation wrote, a delivery sends that and nothing else, an "
+    "accepted one leaves nothing; tied by replaying the real interleavings — the handlers' own log of their writes + the runner "
+    "tasks' deliveries — through `dstep`); noop_patch_sends_nothing + returns_none_none_iff (a non-empty patch whose fns are no-ops "
+    "sends nothing and returns (None, None), the very pair a vanished object gives: the caller cannot tell them apart — what "
+    "application.apply does with that is C03/C06's clause); silent_404, raised_only_on_api_error; same_object_partial and the "
     "negation of the full same_object: name_reuse_witness (finding F2). Hand-written model, tied to the real "
     "patch_obj/apply by a differential run (complete over the stated 32130-case grid in the thorough tier, sampled in quick, "
     "plus random contents, several writes per slot, error codes 400/409) and to the whole operator by replaying every "
@@ -70,7 +78,8 @@ THEOREMS = [("Kopf.Props.C08", "Kopf.C08." + n) for n in [
     "fns_atomic", "conflict_keeps_all_fns", "remaining_only_after_refusal",
     "carry_forward", "stale_view_conflicts_and_carries", "accepted_call_empties_memory", "carried_until_accepted",
     "finalizer_redecided", "not_duplicated_partial", "reapplied_after_status_conflict_witness",
-    "daemon_invocation_owns_its_patch", "daemon_delivery_not_repeated",
+    "patch_is_own_accumulation", "delivery_sends_own_patch", "daemon_delivery_not_repeated",
+    "noop_patch_sends_nothing", "returns_none_none_iff",
     "silent_404", "raised_only_on_api_error", "same_object_partial", "name_reuse_witness"]]
 RULE = (
     "grid: subresource(2) x initial object {plain, foreign+own finalizer, marked+own finalizer}(3) x fields {none, "
@@ -511,11 +520,12 @@ def oracle_call(ctx: Ctx, case: Any, i: int, o: dict, sub: bool, where: str = "p
         return
     # -- 404 / exceptions --------------------------------------------------------------------------
     codes = [r["code"] for r in reqs]
-    if any(c not in (200, 404, 422) for c in codes):
-        return      # an injected error of another kind (C12's subject) cut this call short
     if out["kind"] == "raised":
-        merge422 = reqs and reqs[-1]["code"] == 422 and reqs[-1]["kind"].startswith("merge")
-        if not merge422:
+        # an API error the call does not handle itself may end it by an exception (C12's subject); everything sent
+        # before it is judged like in any other call
+        last = reqs[-1] if reqs else None
+        api_error = last is not None and last["code"] not in (200, 404) and not (last["code"] == 422 and last["kind"].startswith("json"))
+        if not api_error:
             fail(f"patching raised {out.get('exc')}", {"site": "patching.patch_obj", "shape": "exception out of patching"})
             return
     for n, r in enumerate(reqs):
@@ -588,6 +598,8 @@ def oracle_call(ctx: Ctx, case: Any, i: int, o: dict, sub: bool, where: str = "p
                 fail("a rejected JSON-patch changed the object", {"site": "patching.patch_obj", "shape": "stale JSON-patch wrote something"})
             if r is not reqs[-1]:
                 fail("requests continued after a conflicting JSON-patch", {"site": "patching.patch_obj", "shape": "request after 422"})
+            if r["code"] != 422:
+                continue        # another API error: an exception, nothing to carry
             if out["kind"] != "ok" or out.get("remaining") is None or leanio.canon(out["remaining"]) != leanio.canon(fns):
                 fail(f"after a conflict the remaining patch is {out.get('remaining')}, expected all fns {fns}",
                      {"site": "patching.patch_obj", "shape": "conflict does not return the transformations as remaining"})
@@ -998,6 +1010,7 @@ def run(ctx: Ctx) -> None:
     cases += [gen_random(ctx.rng, ctx.seed * 1_000_000 + i) for i in range(nrand)]
     evaluate(ctx, cases)
     ctx.extra["grid_size"] = len(g)
+    ctx.extra["assurance"] = ASSURANCE
     from . import sim_c08 as c08_closed
     c08_closed.run(ctx)
 
